@@ -8,7 +8,7 @@ from .. import gen as G
 from .. import arith as A
 from .. import universal as U
 from ..exact import Unsupported
-from ..storejudge import decode_store, expected_post_codes, in_core_domain, STORE_OPS, init_arguments
+from ..storejudge import decode_store, expected_post_codes, in_core_domain, STORE_OPS, init_arguments, as_library_sees, UNDERFLOW_KEY
 
 ID = 'C04'
 TITLE = 'flags and callbacks exact and sticky'
@@ -40,7 +40,21 @@ def make_judges(ctx):
         cbs = getattr(obj, 'callbacks', None) or []
         return sum(1 for c in cbs if c is rec)
 
-    def judge_write(ev, kind, pre_status, post, over, under, inexact, rank, check_callbacks):
+    def judge_write(ev, kind, pre_status, post, over, under, inexact, rank, check_callbacks, alt=None):
+        if alt is not None:
+            # known finding: an input whose scaled double product underflows to +-0 is seen as 0 by the library
+            got0 = dict((f, bool(post.status.get(f))) for f in _FL)
+            e1 = dict((f, bool(pre_status.get(f))) for f in _FL)
+            e1['overflow'] |= over
+            e1['underflow'] |= under
+            e1['inaccuracy'] |= inexact
+            e2 = dict((f, bool(pre_status.get(f))) for f in _FL)
+            e2['overflow'] |= alt[0]
+            e2['underflow'] |= alt[1]
+            e2['inaccuracy'] |= inexact      # (the inaccuracy comparison is made against the unscaled input)
+            if got0 != e1 and got0 == e2:
+                ctx.violation('status', '%s on %s: flags %s follow the input as scaled in double arithmetic (+-0), the exact input gives %s' % (ev.op, R.dtype_fxp(*post.fmt()), got0, e1), ev, key=UNDERFLOW_KEY)
+                return
         exp = dict((f, bool(pre_status.get(f))) for f in _FL)
         exp['overflow'] |= over
         exp['underflow'] |= under
@@ -54,7 +68,12 @@ def make_judges(ctx):
             want = sorted((['overflow'] if over else []) + (['underflow'] if under else []) + (['inaccuracy'] if inexact else []) + ['value_change'])
             n = has_recorder(ev.receiver)
             if sorted(mine) != sorted(want * n):
-                ctx.violation('callbacks', '%s on %s: callbacks invoked %s, expected %s' % (ev.op, R.dtype_fxp(*post.fmt()), sorted(mine), sorted(want * n)), ev)
+                key = None
+                if alt is not None:
+                    want2 = sorted((['overflow'] if alt[0] else []) + (['underflow'] if alt[1] else []) + (['inaccuracy'] if inexact else []) + ['value_change'])
+                    if sorted(mine) == sorted(want2 * n):
+                        key = UNDERFLOW_KEY
+                ctx.violation('callbacks', '%s on %s: callbacks invoked %s, expected %s' % (ev.op, R.dtype_fxp(*post.fmt()), sorted(mine), sorted(want * n)), ev, key=key)
             ctx.floor_hit(('callbacks', kind))
         raised = tuple(f for f, b in zip(_FL, (over, under, inexact)) if b)
         already = flagset(pre_status)
@@ -98,7 +117,17 @@ def make_judges(ctx):
             pre_status = si.pre.status if si.pre is not None else {}
             kind = 'indexed' if si.index is not None else 'write'
         rank = 'scalar' if len(shape) == 0 else ('1d' if len(shape) == 1 else '2d')
-        judge_write(ev, kind, pre_status, post, over, under, inexact, rank, check_callbacks=(ev.op != '__init__' and has_recorder(ev.receiver) > 0))
+        alt = None
+        av = as_library_sees(si, post.n_frac)
+        if av is not None:
+            keep = si.values
+            si.values = av
+            try:
+                r2 = expected_post_codes(si)
+                alt = (r2[3], r2[4], r2[5])
+            finally:
+                si.values = keep
+        judge_write(ev, kind, pre_status, post, over, under, inexact, rank, check_callbacks=(ev.op != '__init__' and has_recorder(ev.receiver) > 0), alt=alt)
 
     def resize_judge(ev):
         if ev.op != 'resize' or ev.exc is not None or ev.kind != 'method':
